@@ -236,6 +236,15 @@ def build_harnesses(tier: str):
     # a valid text and a mistyped one carrying the same check digits (a check-digit scratch value
     # exchanged between threads would make the typo pass)
     pairs += [("parse", "parse-typo"), ("parse-gb", "parse-gb-typo"), ("parse-typo", "parse-gb-typo")]
+    # calls whose national check RAISES from inside the algorithm (Norwegian check digit 10; method
+    # 68 ten-digit account with a 7th digit other than 9), next to ordinary national checks: whatever
+    # such a call leaves behind (a lock, a flag) must not affect the other thread
+    ctl.update({
+        "nat-no-k10": {"op": "iban", "text": bases.iban_text("NO", "86011100050"), "nat": True},
+        "nat-68-raises": {"op": "iban", "text": iban_for("20030000", "1234567890"), "nat": True},
+    })
+    pairs += [("nat-no-k10", "nat-be"), ("nat-68-raises", "nat-fr"), ("nat-no-k10", "nat-68-raises"),
+              ("nat-no", "nat-no-k10")]
     # two calls that touch the SAME registry entry (same country and bank code)
     pairs += [("lookup", "lookup"), ("candidates", "candidates"), ("lookup-37040044", "iban-bic"),
               ("candidates-37040044", "iban-bank-name"), ("lookup-37040044", "nat-bad-37040044"),
@@ -252,6 +261,20 @@ def build_harnesses(tier: str):
 
 # ----------------------------------------------------------------------------- exploration
 def run_harness(args):
+    try:
+        return _run_harness(args)
+    except sched.Hang as e:
+        name, specs, bound, opcode, tier = args
+        part = par.Part()
+        part["evals"] += 1
+        part.violation(f"{name.split(':')[0]}:threads-hang",
+                       {"kind": "c14hang", "harness": name, "ops": specs, "opcode": opcode},
+                       "every call returns", str(e))
+        part.stat("harnesses")
+        return part.done()
+
+
+def _run_harness(args):
     name, specs, bound, opcode, tier = args
     part = par.Part()
     lib.IBAN("DE89370400440532013000").country  # pre-load pycountry (its real lock is never contended)
@@ -265,7 +288,18 @@ def run_harness(args):
     outcomes, fps, states = set(), set(), set()
     transitions = 0
     last = None
-    for ch, ex, res in sched.explore(mk, len(specs), bound, opcode, fingerprint):
+    explorer = sched.explore(mk, len(specs), bound, opcode, fingerprint)
+    while True:
+        try:
+            ch, ex, res = next(explorer)
+        except StopIteration:
+            break
+        except sched.Hang as e:
+            # a thread blocked for good (e.g. on a lock another call never released)
+            part.violation(f"{name.split(':')[0]}:threads-hang",
+                           {"kind": "c14hang", "harness": name, "ops": specs, "opcode": opcode}, solo_before,
+                           str(e))
+            break
         part.count((name, ch.answers), nontrivial=ex.preemptions > 0)
         transitions += ex.total_steps
         fps |= ex.fingerprints
@@ -344,7 +378,18 @@ def run_cold_harness(args):
     name = f"cold:{a}x{b}"
     solo = [par.in_child(_solo, s) for s in specs]
     outcomes = set()
-    for ch, results, steps, pre, log in sched.explore_cold(specs, make_op, bound):
+    cold = sched.explore_cold(specs, make_op, bound)
+    while True:
+        try:
+            ch, results, steps, pre, log = next(cold)
+        except StopIteration:
+            break
+        except report.HarnessError as e:
+            if "Hang" not in str(e):
+                raise
+            part.violation("cold-start:threads-hang", {"kind": "c14hang", "harness": name, "ops": specs,
+                                                       "opcode": False}, solo, str(e)[:300])
+            break
         part.count((name, ch.answers), nontrivial=pre > 0)
         part.stat("scheduling_steps_executed", sum(steps))
         outcomes.add(repr(results))
@@ -371,6 +416,15 @@ def shard(args):
 
 
 def replay(case: dict) -> dict:
+    if case["kind"] == "c14hang":
+        specs = case["ops"]
+        mk = lambda: [make_op(s) for s in specs]  # noqa: E731
+        try:
+            for _ in sched.explore(mk, len(specs), 0, case.get("opcode", False)):
+                pass
+        except sched.Hang as e:
+            return {"ok": False, "observed": str(e)}
+        return {"ok": True}
     if case["kind"] == "c14cold":
         specs = case["ops"]
         solo = [par.in_child(_solo, s) for s in specs]
